@@ -234,6 +234,10 @@ def gen_prim(r, cfg, k):
         # a text encoding other than the type's default (class-level `encoding` of a user subclass, or the
         # `encoding=` keyword): non-ASCII text becomes possible
         d['enc'] = r.choice(['utf-8', 'iso-8859-1'])
+    if k == 'OCTETSTRING' and getattr(cfg, 'allow_octet_encoding', False) and r.random() < 0.2:
+        # an OCTET STRING that declares a text encoding its octets need not follow (binary content under
+        # encoding='utf-8'): str() of such a value fails, every other use must not
+        d['enc'] = 'utf-8'
     if k == 'ENUMERATED':
         nums = r.sample([0, 1, 2, 5, 127, 128, -1, -129, 70000], r.randrange(1, 5))
         d['named'] = [['e%d' % i, n] for i, n in enumerate(nums)]
